@@ -14,7 +14,14 @@ mut = ["| property | source mutants (mutants/<ID>/*.diff; `python3 lib/mutants.p
 for d in sorted(glob.glob(os.path.join(V, "mutants", "*"))):
     names = sorted(os.path.basename(x)[:-5] for x in glob.glob(os.path.join(d, "*.diff")))
     mut.append("| %s | %s |" % (os.path.basename(d), ", ".join(names)))
-block = ("<!-- BEGIN GENERATED -->\n### 8.2 Defects found on the pinned tree (from findings.d/)\n\n" + "\n".join(rows) +
+ev = ["| property | tier of the committed evidence | TLC distinct states | TLC transitions | scenarios run on the real code | non-trivial distinct | traces accepted by TLC | wall s | spec modules / docs |", "|---|---|---|---|---|---|---|---|---|"]
+import re as _re
+for e in sorted(glob.glob(os.path.join(V, "evidence", "*.json"))):
+    d = json.load(open(e)); c = d["coverage"]; pid = d["property_id"]
+    chk = open(os.path.join(V, "checks", pid + ".py")).read() if os.path.exists(os.path.join(V, "checks", pid + ".py")) else ""
+    mods = sorted(set(_re.findall(r'"(?:MC|Scen|Trace)_([A-Za-z]+?)(?:_[A-Za-z0-9_]+)?\.cfg"', chk)))
+    ev.append("| %s | %s | %s | %s | %s | %s | %s | %s | %s; docs/%s.md |" % (pid, d["tier"], c.get("states", ""), c.get("transitions", ""), c.get("evaluations", ""), c.get("distinct_nontrivial", ""), c.get("traces_validated_against_impl", ""), d.get("wall_s", ""), ", ".join(m + ".tla" for m in mods[:6]), pid))
+block = ("<!-- BEGIN GENERATED -->\n### 8.1b What each check covered in its last committed run (from evidence/)\n\n" + "\n".join(ev) + "\n\n### 8.2 Defects found on the pinned tree (from findings.d/)\n\n" + "\n".join(rows) +
          "\n\n### 8.3 Seeded changes by fresh sub-agents (seeded/*/)\n\n" + "\n".join(seed) +
          "\n\n### 8.4 Binding demonstration: source mutants per property\n\n" + "\n".join(mut) + "\n<!-- END GENERATED -->\n")
 p = os.path.join(V, "DESIGN.md"); s = open(p).read()
